@@ -393,6 +393,11 @@ func streamHTTP(o opts) {
 			}
 			// headers before commit
 			nh := r.Intn(4)
+			if r.Intn(8) == 0 {
+				// an Expires line alone decides the lifetime (no Cache-Control): past, future, or malformed
+				acts = append(acts, hact{kind: 1, k: "Expires", v: pick(r, []string{time.Now().Add(-2 * time.Hour).UTC().Format(time.RFC1123), time.Now().Add(-2 * time.Hour).UTC().Format(time.RFC1123), time.Now().Add(2 * time.Hour).UTC().Format(time.RFC1123), "garbage", "Thu, 01 Jan 1970 00:00:00 GMT"})})
+				nh = 0
+			}
 			for i := 0; i < nh; i++ {
 				switch r.Intn(6) {
 				case 0, 1:
